@@ -649,6 +649,10 @@ impl<'a> Tr<'a> {
                     }
                 }
                 let body = self.expr(&c.body)?;
+                if names.is_empty() {
+                    // `|| e`: a function of the unit value
+                    names.push("(_ : Unit)".to_string());
+                }
                 Ok(format!("(fun {} =>\n{}{})", names.join(" "), binds, body))
             }
             Expr::Range(r) => {
